@@ -60,6 +60,7 @@ class Gen:
         self.rich = rich
         # now and then the empty text as value of a plain string argument (given as next word "" or as "--key=")
         self.empty_str = True
+        self.exotic = True           # plain string values may contain blanks, dashes, control characters, quotes, high bytes
 
     # ------------------------------------------------------------ configurations
     def cfg(self, nargs=None, kinds=None, allow_pos=True, constraints=True, groups=1, exclude=(), subgroups=0, cmd=None, endvalues=0.0):
@@ -406,6 +407,10 @@ class Gen:
         s = "".join(r.choice(alphabet) for _ in range(n))
         if s[0] in "-":
             s = "a" + s[1:]
+        if n >= 2 and a["kind"] == "str" and "l" in a and self.exotic and r.random() < 0.15:     # ("l" in a: a defined argument, not an element of a tuple)
+            # characters that mean something elsewhere on a command line are ordinary characters inside a value word: blank, tab,
+            # dash, the control characters ! ( ), list separators, quotes, backslash, bytes above 127 (never as first character)
+            s = s[0] + "".join(r.choice(" \t-!(),;:+/|'\"\\#@\xe4\xff") if r.random() < 0.5 else ch for ch in s[1:])
         if n >= 2 and r.random() < 0.12:
             # an '=' inside the value ("--key=a=b": the key ends at the FIRST '='); never as first character
             k = r.randint(1, n - 1)
